@@ -139,8 +139,17 @@ def c22(ctx):
         lines = chunks[v["_chunk"]]
         for b in v["bad"]:
             for c in b["complaints"]:
-                c = dict(c, line=b["line"], chunk=v["_chunk"])
+                c = dict(c, line=b["line"], chunk=v["_chunk"], seq=b["seq"])
                 complaints.append(c)
+    # a read-back that differs from the reference model in the same way on all four backends is not a difference BETWEEN
+    # backends (the property): it is C20's business (or the model's). It is logged, not reported.
+    differing = {(c["chunk"], c["seq"], c["kind"]) for c in complaints if c["rule"] in ("C22.pairwise", "C22.dev", "C22.error")}
+    common = [c for c in complaints if c["rule"] == "C22.mismatch" and (c["chunk"], c["seq"], c["kind"]) not in differing]
+    if common:
+        ctx.log("%d read-backs differ from the reference model identically on all four backends (not judged here, see C20), e.g. %s" %
+                (len(common), json.dumps(common[0], ensure_ascii=False)[:400]))
+        ctx.notes.append("%d read-backs differ from the reference model identically on all four backends (C20 judges them)" % len(common))
+        complaints = [c for c in complaints if c not in common]
     for ch in chunks:
         for l in ch:
             if l.startswith('{"ev":"event"'):
